@@ -10,8 +10,11 @@ pub fn decode(src: &[u8], ctx: &Context<'_>) -> io::Result<Vec<u8>> {
 
     let mut dst = vec![0; ctx.uncompressed_size];
 
-    match ctx.symbol_count.get() {
-        1 => dst.fill(mapping_table[0]),
+    let result = match ctx.symbol_count.get() {
+        1 => {
+            dst.fill(mapping_table[0]);
+            Some(())
+        }
         2 => unpack(src, mapping_table, 8, &mut dst),
         3..=4 => unpack(src, mapping_table, 4, &mut dst),
         5..=16 => unpack(src, mapping_table, 2, &mut dst),
@@ -21,12 +24,20 @@ pub fn decode(src: &[u8], ctx: &Context<'_>) -> io::Result<Vec<u8>> {
                 format!("expected bit pack symbol count to be <= 16, got {n}"),
             ));
         }
-    }
+    };
+
+    result.ok_or_else(|| {
+        io::Error::new(
+            io::ErrorKind::InvalidData,
+            "bit pack symbol index out of range of the mapping table",
+        )
+    })?;
 
     Ok(dst)
 }
 
-fn unpack(src: &[u8], mapping_table: &[u8], chunk_size: usize, dst: &mut [u8]) {
+// Returns `None` if a packed value is not an index in the mapping table.
+fn unpack(src: &[u8], mapping_table: &[u8], chunk_size: usize, dst: &mut [u8]) -> Option<()> {
     const BITS: usize = u8::BITS as usize;
 
     let shift = BITS / chunk_size;
@@ -34,10 +45,12 @@ fn unpack(src: &[u8], mapping_table: &[u8], chunk_size: usize, dst: &mut [u8]) {
 
     for (mut s, chunk) in src.iter().copied().zip(dst.chunks_mut(chunk_size)) {
         for d in chunk {
-            *d = mapping_table[usize::from(s & mask)];
+            *d = *mapping_table.get(usize::from(s & mask))?;
             s >>= shift;
         }
     }
+
+    Some(())
 }
 
 #[cfg(test)]
